@@ -210,3 +210,14 @@ func leftoverF1(exclude map[uint64]bool) []string {
 }
 
 func dur(ns int64) time.Duration { return time.Duration(ns) }
+
+// atomicCancel records the cancellation instant and cancels in one step (no scheduling point in between:
+// this file is not instrumented), so that "cancelled" in the ground truth means cancel() has been called.
+func atomicCancel(env *Env, flag *bool, ns *int64, seq *uint64, cancel func()) {
+	if !*flag {
+		*flag = true
+		*ns, *seq = env.Sim.Now(), env.Sim.Step()
+		env.Sim.Log("cancel", 0, 0, "")
+	}
+	cancel()
+}
